@@ -142,6 +142,62 @@ def run(ck):
              for n in walk_local(ast.Module(body=fwd.body, type_ignores=[])))
     ck.ob("R4", "BlockChain.fix_blocks:forward-advance", ok, m.where(fwd), "the forward loop does not advance the offset by the block's size")
 
+    # ---------------------------------------------------------------- R6 placement scans one list sorted by address
+    ck.rule("R6", "free chains are placed between neighbours of ONE list - pinned chains and forbidden-interval wedges together - sorted by offset_min", floor=1)
+    fn = m.func("resolve_symbol")
+    cfg6 = CFG(fn)
+    # the scanned list: the one indexed with i - 1 / i in the placement loop
+    scanned = None
+    for n in walk_body(fn):
+        if isinstance(n, ast.Subscript) and isinstance(n.value, ast.Name) and isinstance(n.slice, ast.BinOp) and isinstance(n.slice.op, ast.Sub) and norm(n.slice.right) == "1":
+            scanned = n.value.id
+    ck.need(scanned is not None, "resolve_symbol: the list scanned by the placement loop was not found")
+    binds = [nd for nd in cfg6.nodes if nd.kind == "stmt" and isinstance(nd.ast, ast.Assign) and any(isinstance(t, ast.Name) and t.id == scanned for t in nd.ast.targets)]
+    ck.need(binds, "resolve_symbol: binding of `%s` not found" % scanned)
+    bnd = binds[0]
+    v = bnd.ast.value
+    while isinstance(v, ast.Call) and isinstance(v.func, ast.Name) and v.func.id in ("list", "tuple") and len(v.args) == 1:
+        v = v.args[0]
+
+    def by_offset_min(call):
+        return any(k.arg == "key" and "offset_min" in norm(k.value) for k in call.keywords)
+    ok6 = False
+    why6 = "`%s` is bound to `%s`" % (scanned, norm(bnd.ast.value)[:70])
+    if isinstance(v, ast.Call) and isinstance(v.func, ast.Name) and v.func.id == "sorted" and by_offset_min(v):
+        src = v.args[0] if v.args else None
+        ok6 = src is not None
+        base = src
+    elif isinstance(v, ast.Name):
+        base = v
+        sorts = [nd for nd in cfg6.nodes if any(isinstance(c.func, ast.Attribute) and c.func.attr == "sort" and norm(c.func.value) == v.id and by_offset_min(c)
+                                                for c in node_calls(nd))]
+        if sorts:
+            srt = sorts[-1]
+            late = [nd for nd in cfg6.nodes if nd is not srt and cfg6.can_reach(srt.id, nd.id) and cfg6.can_reach(nd.id, bnd.id) and (
+                any(isinstance(c.func, ast.Attribute) and c.func.attr in ("append", "extend", "insert") and norm(c.func.value) == v.id for c in node_calls(nd)) or
+                (nd.kind == "stmt" and isinstance(nd.ast, (ast.AugAssign,)) and norm(nd.ast.target) == v.id) or
+                (nd.kind == "stmt" and isinstance(nd.ast, ast.Assign) and any(norm(t) == v.id for t in nd.ast.targets)))]
+            ok6 = cfg6.can_reach(srt.id, bnd.id) and not late
+            why6 += "; `%s` is sorted by offset_min%s" % (v.id, " but changed afterwards" if late else "")
+        else:
+            why6 += "; `%s` is never sorted by offset_min" % v.id
+    else:
+        base = None
+    # the sorted list holds the wedges of the forbidden intervals as well as the pinned chains
+    wedge_in = False
+    if base is not None and isinstance(base, ast.Name):
+        for nd in cfg6.nodes:
+            for c in node_calls(nd):
+                if isinstance(c.func, ast.Attribute) and c.func.attr in ("append", "extend") and norm(c.func.value) == base.id and cfg6.can_reach(nd.id, bnd.id):
+                    wedge_in = True
+            if nd.kind == "stmt" and isinstance(nd.ast, ast.AugAssign) and norm(nd.ast.target) == base.id and cfg6.can_reach(nd.id, bnd.id):
+                wedge_in = True
+    elif base is not None:
+        wedge_in = "edge" in norm(base).lower()
+    ck.ob("R6", "resolve_symbol:one-sorted-list", ok6 and wedge_in, m.where(bnd.ast),
+          "%s%s: the placement loop assumes neighbours in the list are neighbours in the address space; with several forbidden intervals a "
+          "chain is laid across a hole of the destination" % (why6, "" if wedge_in else "; the wedges are not part of the sorted list"))
+
     # ---------------------------------------------------------------- R2
     fn = m.func("asm_resolve_final")
     cfg = CFG(fn)
